@@ -356,6 +356,9 @@ func refClientVsRealServer(c *mc.Ctx, t tuple, seed int64) {
 func main() {
 	mc.Main("C06", func(cfg *mc.Config, emit func(mc.Scenario)) {
 		K := 3
+		if cfg.Thorough() {
+			K = 10 // 10 identities x 11 bridge seeds
+		}
 		cpads := []int{76, 77, 78, 4000, 8127, 8128, 8129}
 		spads := []int{0, 1, 4000, 8050, 8051, 8096, 8097}
 		add := func(t tuple) {
